@@ -639,6 +639,9 @@ impl<const L: bool> EventSource for Zoo<L> {
     fn before_sleep(&mut self) -> calloop::Result<Option<(Readiness, Token)>> {
         let uid = self.uid;
         let want = exec::before_sleep(uid);
+        if exec::before_sleep_fails(uid, want) {
+            return Err(injected_calloop("before_sleep"));
+        }
         if want {
             if let Some(t) = self.synth_token {
                 exec::synth_returned(uid, t.verif_key());
